@@ -65,3 +65,222 @@ def replay(model, obligation):
         if sorted(PH.findall(str(c))) != sorted(ctx) or len(ctx) != n or sorted(ctx) != [str(i) for i in range(4, 4 + n)]:
             fails.append('%s%r: size %d, binds %r, renders %s' % (cls.__name__, args, n, ctx, str(c)))
     return {'reproduced': bool(fails), 'detail': '; '.join(fails[:2]) or 'no disagreement on the stock shapes'}
+
+
+# ---------------------------------------------------------------------------
+# bounded stand-in at the queryset / DML layer (AbstractQuerySet.filter / iff / _select_query, ModelQuerySet.update / delete, DMLQuery.save / update / delete)
+
+_PAIR = None
+
+
+def _models():
+    from contracts.native.c35 import _import_cqlengine
+    columns, models, query, statements = _import_cqlengine()
+
+    class VerifC37(models.Model):
+        __keyspace__ = 'ks'
+        __table_name__ = 'verif_c37'
+        p1 = columns.Integer(partition_key=True)
+        p2 = columns.Text(partition_key=True)
+        c1 = columns.Integer(primary_key=True)
+        c2 = columns.Text(primary_key=True)
+        v1 = columns.Text(index=True)
+        v2 = columns.Integer()
+        v3 = columns.Integer()
+        m = columns.Map(columns.Text, columns.Integer)
+        l = columns.List(columns.Integer)
+        s = columns.Set(columns.Integer)
+    return VerifC37, query, statements
+
+
+def _unwrap(v):
+    v = getattr(v, 'value', v)
+    if isinstance(v, (list, tuple, set, frozenset)):
+        return sorted(_unwrap(x) for x in v) if not isinstance(v, (list, tuple)) else [_unwrap(x) for x in v]
+    if isinstance(v, dict):
+        return {_unwrap(k): _unwrap(x) for k, x in v.items()}
+    return v
+
+
+def _check_text(text, ctx, expected, fails, what):
+    """`expected`: list of (sql fragment regex with one (\\d+) group for the placeholder id, value) - every one must occur once and be bound to its value;
+    and the placeholders of the whole text are distinct and are exactly the context keys"""
+    import re
+    ids = re.findall(r'%\((\d+)\)s', text)
+    if len(ids) != len(set(ids)) or sorted(ids) != sorted(str(k) for k in ctx):
+        fails.append('%s: placeholders %r, bound keys %r in %s' % (what, ids, sorted(ctx), text))
+        return
+    for pat, val in expected:
+        m = re.findall(pat, text)
+        if len(m) != 1:
+            fails.append('%s: %r occurs %d times in %s' % (what, pat, len(m), text))
+            continue
+        got = _unwrap(ctx[m[0]] if m[0] in ctx else ctx.get(int(m[0])))
+        if got != _unwrap(val):
+            fails.append('%s: the placeholder of %r is bound to %r, its clause was given %r (%s with %r)' % (what, pat, got, _unwrap(val), text, {k: _unwrap(v) for k, v in ctx.items()}))
+
+
+def querysets(tier, seed):
+    import itertools
+    import random
+    M, query, statements = _models()
+    rng = random.Random(seed)
+    fails, n, shapes, skipped = [], 0, set(), {}
+    captured = []
+    real_exec = query._execute_statement
+    query._execute_statement = lambda model, statement, cl, timeout, connection=None: captured.append(statement) or []
+    ops = {'': '=', '__gt': '>', '__gte': '>=', '__lt': '<', '__lte': '<='}
+    try:
+        rounds = 400 if tier == 'quick' else 6000
+        for _ in range(rounds):
+            vals = iter(rng.sample(range(100, 100000), 40))
+            where, kw = [], {}
+            # the partition key is always fixed; clustering restrictions, an IN and an indexed column come and go
+            kw['p1'] = next(vals)
+            where.append((r'"p1" = %\((\d+)\)s', kw['p1']))
+            kw['p2'] = 't%d' % next(vals)
+            where.append((r'"p2" = %\((\d+)\)s', kw['p2']))
+            shape = []
+            pick = rng.choice(['none', 'eq', 'range', 'in', 'two-sided'])
+            shape.append(pick)
+            if pick == 'eq':
+                kw['c1'] = next(vals)
+                where.append((r'"c1" = %\((\d+)\)s', kw['c1']))
+            elif pick == 'range':
+                suf = rng.choice(['__gt', '__gte', '__lt', '__lte'])
+                kw['c1' + suf] = next(vals)
+                where.append((r'"c1" %s %%\((\d+)\)s' % ops[suf], kw['c1' + suf]))
+            elif pick == 'two-sided':
+                kw['c1__gte'], kw['c1__lt'] = next(vals), next(vals)
+                where += [(r'"c1" >= %\((\d+)\)s', kw['c1__gte']), (r'"c1" < %\((\d+)\)s', kw['c1__lt'])]
+            elif pick == 'in':
+                kw['c1__in'] = [next(vals) for _i in range(rng.randint(1, 3))]
+                where.append((r'"c1" IN %\((\d+)\)s', kw['c1__in']))
+            order = list(kw.items())
+            rng.shuffle(order)
+            qs = M.objects
+            # filters given in one call or chained one by one, in a random order
+            if rng.random() < 0.5:
+                qs = qs.filter(**dict(order))
+            else:
+                for k, v in order:
+                    qs = qs.filter(**{k: v})
+            flow = rng.choice(['select', 'update', 'delete', 'count'])
+            shape.append(flow)
+            cond = []
+            if flow in ('update', 'delete') and rng.random() < 0.6:
+                ck = {}
+                for col in rng.sample(['v2', 'v3', 'v1'], rng.randint(1, 2)):
+                    ck[col] = ('s%d' % next(vals)) if col == 'v1' else next(vals)
+                    cond.append((r'IF(?:.* AND)? "%s" = %%\((\d+)\)s' % col, ck[col]))
+                qs = qs.iff(**ck)
+                shape.append('iff%d' % len(ck))
+            del captured[:]
+            n += 1
+            if flow == 'select':
+                st = qs._select_query()
+                _check_text(str(st), st.get_context(), where, fails, 'SELECT via filter(%r)' % (dict(order),))
+            elif flow == 'count':
+                qs.count() if False else None
+                st = statements.SelectStatement(M.column_family_name(), count=True, where=qs._where)
+                _check_text(str(st), st.get_context(), where, fails, 'COUNT via filter(%r)' % (dict(order),))
+            elif flow == 'delete':
+                if any(k.startswith('c1__') and not k.endswith('__in') for k in kw) and False:
+                    continue
+                try:
+                    qs.delete()
+                except Exception as e:       # validation of the restriction shape is not this property
+                    skipped[type(e).__name__ + ': ' + str(e)[:60]] = skipped.get(type(e).__name__ + ': ' + str(e)[:60], 0) + 1
+                    n -= 1
+                    continue
+                st = captured[-1]
+                _check_text(str(st), st.get_context(), where + cond, fails, 'DELETE via filter(%r)' % (dict(order),))
+            else:
+                upd, assign = {}, []
+                for col in rng.sample(['v1', 'v2', 'v3', 'l__append', 'l__prepend', 's__add', 's__remove', 'm__update'], rng.randint(1, 4)):
+                    base = col.split('__')[0]
+                    if any(k.split('__')[0] == base for k in upd) or (base in dict((c.split('"')[1], 1) for c, _v in cond)):
+                        continue
+                    if col == 'v1':
+                        upd[col] = 'n%d' % next(vals)
+                        assign.append((r'"v1" = %\((\d+)\)s', upd[col]))
+                    elif col in ('v2', 'v3'):
+                        upd[col] = next(vals)
+                        assign.append((r'"%s" = %%\((\d+)\)s' % col, upd[col]))
+                    elif col == 'm__update':
+                        k_, v_ = 'k%d' % next(vals), next(vals)
+                        upd[col] = {k_: v_}
+                        assign += [(r'"m"\[%\((\d+)\)s\] = %\(\d+\)s', k_), (r'"m"\[%\(\d+\)s\] = %\((\d+)\)s', v_)]
+                    elif col == 'l__append':
+                        upd[col] = [next(vals)]
+                        assign.append((r'"l" = "l" \+ %\((\d+)\)s', upd[col]))
+                    elif col == 'l__prepend':
+                        upd[col] = [next(vals)]
+                        assign.append((r'"l" = %\((\d+)\)s \+ "l"', upd[col]))
+                    elif col == 's__add':
+                        upd[col] = {next(vals)}
+                        assign.append((r'"s" = "s" \+ %\((\d+)\)s', upd[col]))
+                    else:
+                        upd[col] = {next(vals)}
+                        assign.append((r'"s" = "s" - %\((\d+)\)s', upd[col]))
+                if not upd:
+                    n -= 1
+                    continue
+                shape.append('set%d' % len(upd))
+                try:
+                    qs.update(**upd)
+                except Exception as e:
+                    skipped[type(e).__name__ + ': ' + str(e)[:60]] = skipped.get(type(e).__name__ + ': ' + str(e)[:60], 0) + 1
+                    n -= 1
+                    continue
+                st = captured[-1]
+                _check_text(str(st), st.get_context(), where + assign + cond, fails, 'UPDATE %r via filter(%r)' % (upd, dict(order)))
+            shapes.add(tuple(shape))
+            if len(fails) > 5:
+                break
+        # instance-level DML: save / update / delete of a loaded row, with and without a condition
+        for _ in range(rounds // 4):
+            vals = iter(rng.sample(range(100, 100000), 30))
+            key = dict(p1=next(vals), p2='t%d' % next(vals), c1=next(vals), c2='u%d' % next(vals))
+            inst = M(v1='a%d' % next(vals), v2=next(vals), v3=next(vals), l=[1], s={1}, m={'a': 1}, **key)
+            inst._is_persisted = True
+            for col in inst._values:
+                inst._values[col].reset_previous_value()
+            where = [(r'"%s" = %%\((\d+)\)s' % k, v) for k, v in key.items()]
+            change, assign = rng.sample(['v1', 'v2', 'v3'], rng.randint(1, 3)), []
+            for col in change:
+                nv = ('b%d' % next(vals)) if col == 'v1' else next(vals)
+                setattr(inst, col, nv)
+                assign.append((r'"%s" = %%\((\d+)\)s' % col, nv))
+            cond = []
+            target = inst
+            if rng.random() < 0.5:
+                cv = next(vals)
+                unchanged = [c for c in ('v2', 'v3') if c not in change]
+                if unchanged:
+                    target = inst.iff(**{unchanged[0]: cv})
+                    cond.append((r'IF "%s" = %%\((\d+)\)s' % unchanged[0], cv))
+            del captured[:]
+            n += 1
+            flow = rng.choice(['save', 'update', 'delete'])
+            try:
+                getattr(target, flow)()
+            except Exception as e:
+                skipped[type(e).__name__ + ': ' + str(e)[:60]] = skipped.get(type(e).__name__ + ': ' + str(e)[:60], 0) + 1
+                n -= 1
+                continue
+            shapes.add(('instance', flow, len(change), bool(cond)))
+            for st in captured:
+                text = str(st)
+                exp = list(where) + list(cond if 'IF ' in text else [])
+                if text.startswith('UPDATE') and flow != 'delete':
+                    exp += assign
+                _check_text(text, st.get_context(), exp, fails, 'instance.%s()' % flow)
+            if len(fails) > 5:
+                break
+    finally:
+        query._execute_statement = real_exec
+    return {'name': 'queryset_and_instance_statements', 'evaluations': n, 'distinct_nontrivial': len(shapes),
+            'rule': 'random filter()/iff()/update()/delete()/_select_query() chains and instance save/update/delete on a real model (2 partition + 2 clustering key columns, scalar and collection '
+                    'columns), every bound value unique so that a placeholder bound to another clause\'s value is visible; distinct = distinct (restriction, flow, condition, assignment-count) shapes',
+            'bound': '%d statement builds, seed %d' % (n, seed), 'samples': sorted(map(str, shapes))[:4], 'skipped': skipped, 'violations': fails[:3]}
